@@ -1,0 +1,27 @@
+//go:build verif
+
+package pfb
+
+// Machine-checked contracts for package pfb (read by /verif/govc only;
+// never compiled into a normal build).
+
+//@ func hexEncode
+//@ arith bv
+//@ safety C01 C14
+//@ requires b < 16
+//@ ensures [C14.hexdigit] result == "0123456789abcdef"[b]
+
+// pfbWF is the representation invariant of a pfbReader between Read calls.
+func pfbWF(r *pfbReader) bool {
+	return r.r != nil && r.len >= 0 && r.len <= 0xffffffff
+}
+
+//@ func (*pfbReader).Read
+//@ safety C01 C14
+//@ requires r != nil && pfbWF(r)
+//@ ensures pfbWF(r)
+//@ ensures [C14.count] 0 <= n && n <= len(b)
+//@ loop 1 invariant pfbWF(r)
+//@ loop 1 invariant 0 <= n && n + len(b) == len(old(b))
+//@ loop 2 invariant -1 <= i && i < l && l <= len(b)
+//@ loop 2 decreases i + 1
